@@ -117,3 +117,96 @@ class RatioBox:
         global_type = False
 
     r: Optional[Ratio] = field(default=None, metadata={"type": "Element"})
+
+
+# --- two unrelated hierarchies whose derived types share one xsi:type name -------------------------------------
+
+@dataclass
+class BaseX:
+    class Meta:
+        global_type = False
+
+    v: Optional[str] = field(default=None, metadata={"type": "Element"})
+
+
+@dataclass
+class SpecialX(BaseX):
+    class Meta:
+        name = "special2"
+        namespace = "urn:t"
+
+    x: Optional[int] = field(default=None, metadata={"type": "Element"})
+
+
+@dataclass
+class BaseY:
+    class Meta:
+        global_type = False
+
+    v: Optional[str] = field(default=None, metadata={"type": "Element"})
+
+
+@dataclass
+class SpecialY(BaseY):
+    class Meta:
+        name = "special2"
+        namespace = "urn:t"
+
+    y: Optional[str] = field(default=None, metadata={"type": "Element"})
+
+
+@dataclass
+class HolderX:
+    class Meta:
+        name = "holderx"
+        namespace = "urn:t"
+
+    b: Optional[BaseX] = field(default=None, metadata={"type": "Element"})
+
+
+@dataclass
+class HolderY:
+    class Meta:
+        name = "holdery"
+        namespace = "urn:t"
+
+    b: Optional[BaseY] = field(default=None, metadata={"type": "Element"})
+
+
+# --- a compound field without a str choice: which choice a string selects depends on the string ----------------
+
+from decimal import Decimal  # noqa: E402
+
+from xsdata.models.datatype import XmlDate, XmlDateTime  # noqa: E402
+
+
+@dataclass
+class Poly:
+    class Meta:
+        name = "poly"
+        namespace = "urn:t"
+
+    v: List[object] = field(default_factory=list, metadata={"type": "Elements", "choices": (
+        {"name": "d", "type": XmlDate}, {"name": "dt", "type": XmlDateTime}, {"name": "n", "type": Decimal}, {"name": "b", "type": bool})})
+
+
+# --- namespace-restricted wildcards next to an open one (what is 'unknown' depends on the field, not on the name alone) ------
+
+@dataclass
+class OpenChild:
+    class Meta:
+        global_type = False
+
+    any: List[object] = field(default_factory=list, metadata={"type": "Wildcard", "namespace": "##any"})
+    attrs: Dict[str, str] = field(default_factory=dict, metadata={"type": "Attributes", "namespace": "##any"})
+
+
+@dataclass
+class Restricted:
+    class Meta:
+        name = "restricted"
+        namespace = "urn:t"
+
+    open: Optional[OpenChild] = field(default=None, metadata={"type": "Element"})
+    other: List[object] = field(default_factory=list, metadata={"type": "Wildcard", "namespace": "##other"})
+    oattrs: Dict[str, str] = field(default_factory=dict, metadata={"type": "Attributes", "namespace": "urn:attr"})
